@@ -73,18 +73,28 @@ func c20(r *core.Report) {
 		}
 		csLoad.funcs = fs
 	}
-	// Post-load phase. Schema.visitJSON (value validation) is entered from Validate only to check
-	// defaults and examples against a schema whose sub-schemas Schema.validate has already accepted
-	// (it returns on the first sub-schema error before it reaches them): that subtree runs under the
-	// validated-document regime decided by C10, not under this phase's "nothing validated" regime.
+	// Post-load phase. Schema.visitJSON (value validation) is entered from Validate to check defaults
+	// and examples. The schemas it walks have NOT all been accepted by Schema.validate yet: across a
+	// back edge of a reference cycle a default is checked against a schema whose validation is still
+	// in progress higher up the stack. So that subtree is analysed here as well, with one axiom only:
+	// reference wrappers of a document returned by the loader are resolved (every position is walked:
+	// C02.cover; a reference that found nothing fails the load: C02.backtrack; wrappers without a
+	// reference have a value: C20.inv). Nothing else about validated documents is assumed.
 	csPost := newCrashScope(p, "C20", postE)
-	csPost.reach = p.ReachableExcept(postE, func(f *ssa.Function) bool {
+	cut := p.ReachableExcept(postE, func(f *ssa.Function) bool {
 		if f.Name() != "visitJSON" && f.Name() != "VisitJSON" {
 			return false
 		}
 		rv := f.Signature.Recv()
 		return rv != nil && core.NamedOf(rv.Type()) != nil && core.NamedOf(rv.Type()).Obj().Name() == "Schema"
 	})
+	visitOnly := map[*ssa.Function]bool{}
+	for fn := range csPost.reach {
+		if !cut[fn] {
+			visitOnly[fn] = true
+		}
+	}
+	csPost.resolvedWrappers = visitOnly
 	csPost.funcs = nil
 	for fn := range csPost.reach {
 		csPost.funcs = append(csPost.funcs, fn)
@@ -167,6 +177,8 @@ func c20(r *core.Report) {
 	crashIndex(r, csAll, 8)
 	crashLib(r, csAll, 3)
 	crashHash(r, csAll, 3)
+	crashBound(r, csAll, 1)
+	crashIfaceNil(r, csAll, 1)
 	lg := map[*ssa.Function]string{}
 	crashRec(r, csAll, func(site ssa.CallInstruction, callee *ssa.Function) string {
 		if w, ok := lg[callee]; ok {
